@@ -10,7 +10,7 @@ GEOMETRY = dict(
     out="lean/AdaptaVerif/Gen/Geometry.lean",
     functions=["vecDir", "inBetween", "colinear", "pointOnLine", "segmentIntersect",
                "inValidRegion", "cornerSide", "segmentIntersectPoint", "rayIntersectPoint", "inPoly"],
-    constants={"DONT_INTERSECT": ("(0 : Int)", "Int"), "DO_INTERSECT": ("(1 : Int)", "Int"), "PARALLEL": ("(3 : Int)", "Int")},
+    auto_constants={"DONT_INTERSECT": "Int", "DO_INTERSECT": "Int", "PARALLEL": "Int"},      # values read from geometry.h
 )
 
 MAKEPATH = dict(
@@ -18,8 +18,7 @@ MAKEPATH = dict(
     ns="AdaptaVerif.Gen.Makepath",
     out="lean/AdaptaVerif/Gen/Makepath.lean",
     functions=["dimDirection", "orthogonalDirectionsCount", "orthogonalDirection", "dirRight", "dirLeft", "dirReverse", "bends"],
-    constants={"CostDirectionN": ("(1 : Nat)", "Nat"), "CostDirectionE": ("(2 : Nat)", "Nat"),
-               "CostDirectionS": ("(4 : Nat)", "Nat"), "CostDirectionW": ("(8 : Nat)", "Nat")},
+    auto_constants={"CostDirectionN": "Nat", "CostDirectionE": "Nat", "CostDirectionS": "Nat", "CostDirectionW": "Nat"},
 )
 
 _SD = ["east", "south", "west", "north", "right", "down", "left", "up"]
@@ -81,10 +80,10 @@ PINDIRS = dict(
     types={"ConnDirFlags": "Nat"},
     this_params=[("visDirs", "Nat"), ("xOff", "Rat"), ("yOff", "Rat")],
     members_all={"m_visibility_directions": ("visDirs", "Nat"), "m_x_offset": ("xOff", "Rat"), "m_y_offset": ("yOff", "Rat")},
-    constants={"ATTACH_POS_LEFT": ("(0 : Rat)", "Rat"), "ATTACH_POS_TOP": ("(0 : Rat)", "Rat"),
-               "ATTACH_POS_RIGHT": ("(1 : Rat)", "Rat"), "ATTACH_POS_BOTTOM": ("(1 : Rat)", "Rat")},
-    enums={"ConnDirNone": ("(0 : Nat)", "Nat"), "ConnDirUp": ("(1 : Nat)", "Nat"), "ConnDirDown": ("(2 : Nat)", "Nat"),
-           "ConnDirLeft": ("(4 : Nat)", "Nat"), "ConnDirRight": ("(8 : Nat)", "Nat"), "ConnDirAll": ("(15 : Nat)", "Nat")},
+    # values of the offset sentinels and of the ConnDirFlag enum are read from the headers on every run
+    auto_constants={"ATTACH_POS_LEFT": "Rat", "ATTACH_POS_TOP": "Rat", "ATTACH_POS_RIGHT": "Rat", "ATTACH_POS_BOTTOM": "Rat",
+                    "ConnDirNone": "Nat", "ConnDirUp": "Nat", "ConnDirDown": "Nat", "ConnDirLeft": "Nat",
+                    "ConnDirRight": "Nat", "ConnDirAll": "Nat"},
 )
 
 JOBS = {"geometry": GEOMETRY, "makepath": MAKEPATH, "sepdir": SEPDIR, "tri": TRI, "seppair": SEPPAIR, "pindirs": PINDIRS}
